@@ -119,6 +119,7 @@ pub fn merge(sums: &[Summary]) -> Summary {
       m.clock_readings += s.clock_readings;
       m.clock_ns = m.clock_ns.saturating_add(s.clock_ns);
       m.inconclusive += s.inconclusive;
+      merge_map(&mut m.extra, &s.extra);
       if m.samples.len() < 3 {
          m.samples.extend(s.samples.iter().take(3 - m.samples.len()).cloned());
       }
@@ -207,8 +208,8 @@ pub fn check_main(id: &str, tier: &str) -> ! {
          warnings.push(format!("reach probe '{}' never fired in this batch", p));
       }
    }
-   if m.max_steps_seen * 200 > crate::gen::MAX_STEPS {
-      warnings.push(format!("largest execution used {} steps; budget {} is less than 200x that", m.max_steps_seen, crate::gen::MAX_STEPS));
+   if m.max_steps_seen * 20 > crate::gen::MAX_STEPS {
+      warnings.push(format!("largest execution used {} steps; budget {} is less than 20x that", m.max_steps_seen, crate::gen::MAX_STEPS));
    }
    let evidence = json!({
       "property_id": id,
@@ -222,7 +223,7 @@ pub fn check_main(id: &str, tier: &str) -> ! {
          "distinct_nontrivial": distinct.len(),
          "rule": sp.rule,
          "samples": m.samples,
-         "exhaustive": false,
+         "exhaustive": sp.id == "C14" && m.extra.get("groups_truncated_at_ENUM_readings").cloned().unwrap_or(0) == 0 && m.extra.get("groups(program,input,schedule)").cloned().unwrap_or(0) > 0,
          "simulated_runs_per_hour": (m.evaluations as f64 / wall.max(0.001) * 3600.0) as u64,
          "seeds": format!("VERIF_SEED={} -> per-case seed mix(VERIF_SEED, check, index), index 0..{}", seed, n_cases),
          "simulated_steps": m.steps,
@@ -242,6 +243,7 @@ pub fn check_main(id: &str, tier: &str) -> ! {
          "process_level_shard_counts_seen": shard_values,
          "workloads(program/variant/input_generator)": m.labels,
          "inconclusive_runs(panic_or_deadlock_left_to_C02)": m.inconclusive,
+         "check_specific": m.extra,
          "known_findings_matched": known_hit,
          "warnings": warnings,
          "real_vs_stub": spec::real_vs_stub(),
